@@ -33,6 +33,10 @@ def check(ctx: Ctx) -> None:
     ctx.assume('E1: no setattr/__dict__ writes by computed name, no monkey-patching; sources are not mutated '
                'through references that escaped the object (the repo freezes them with setflags(write=False), '
                'which rule C08.b checks); exceptional exits are out of scope')
+    from ..commit import check_family
+    check_family(ctx, 'C08.e', ['MultiUserChannelMatrix'], floor=1)
+    from ..idioms import check_escaping_not_mutated
+    check_escaping_not_mutated(ctx, 'C08.f', ['MultiUserChannelMatrix', 'MultiUserChannelMatrixExtInt'], floor=4)
     # ---------------------------------------------------------------- C08.a
     ctx.rule('C08.a', 'DSF: no derived view is DIRTY at a normal exit of any public entry point '
                       '(inductive step of the freshness invariant, all histories)', floor=60)
@@ -126,6 +130,7 @@ def check(ctx: Ctx) -> None:
                                           % (n.attr, sorted(RAW_READERS)), fn.path, n.lineno, operand=n.attr)
     _check_corrupt(ctx)
     _check_blocks(ctx)
+    _check_expansion_counts(ctx)
 
 
 def _check_blocks(ctx: Ctx) -> None:
@@ -167,6 +172,82 @@ def _check_blocks(ctx: Ctx) -> None:
                             ctx.violation('C08.d', q, 'the %s range of a block is taken from the cumulative sum of `%s`'
                                           % ('row' if pos == 0 else 'column', cums[e.lower.value.id]), fn.path, n.lineno,
                                           operand='axis:%d' % pos)
+
+
+def _check_expansion_counts(ctx: Ctx) -> None:
+    """C08.g: the per-link path loss is expanded over ALL (receiver, transmitter) blocks of the class that runs the code."""
+    from ..astutil import expander
+    M = ctx.model
+    ctx.rule('C08.g', 'every expansion of the path-loss matrix to antenna resolution is given block counts that cover the whole matrix for '
+                      'EVERY class that executes that code (number of receivers x number of transmitters incl. external sources)', floor=3)
+    base = M.cls('MultiUserChannelMatrix')
+    classes = [base] + M.subclasses(base)
+
+    def k_is_total(C) -> Optional[bool]:
+        p = M.lookup_property(C, 'K')
+        if p is None or p[0] is None:
+            return None
+        rets = [n.value for n in walk_no_nested(p[0].node) if isinstance(n, ast.Return) and n.value is not None]
+        if len(rets) != 1:
+            return None
+        return is_self_attr(rets[0], p[0].self_name or 'self') == '_K'
+
+    for D in classes:
+        for fn in D.methods.values():
+            sn = fn.self_name
+            if sn is None:
+                continue
+            ex = expander(fn)
+            for c in walk_no_nested(fn.node):
+                if not (isinstance(c, ast.Call) and isinstance(c.func, ast.Attribute) and c.func.attr == '_from_small_matrix_to_big_matrix'):
+                    continue
+                if len(c.args) < 4:
+                    ctx.error('C08.g: expansion call `%s` has fewer than four positional arguments (cannot tell)' % norm(c)[:70])
+                small = norm(c.args[0])
+
+                def kind(e, C):
+                    e = ex(e)
+                    s_ = norm(e).replace(' ', '')
+                    for i in (0, 1):
+                        if s_ in ('%s.shape[%d]' % (small, i), '%s.shape[%d]' % (norm(ex(c.args[0])), i)):
+                            return 'shape%d' % i
+                    a = is_self_attr(e, sn)
+                    if a == '_K':
+                        return 'total'
+                    if a == 'K':
+                        t = k_is_total(C)
+                        return None if t is None else ('total' if t else 'users')
+                    return None
+                # tuple unpacking of the shape: Kr, Kt = small.shape
+                unpack = {}
+                for n in walk_no_nested(fn.node):
+                    if isinstance(n, ast.Assign) and isinstance(n.targets[0], ast.Tuple) and norm(n.value).endswith('.shape') \
+                            and norm(n.value)[:-6] in (small, norm(ex(c.args[0]))):
+                        for i, x in enumerate(n.targets[0].elts):
+                            if isinstance(x, ast.Name):
+                                unpack[x.id] = 'shape%d' % i
+                for C in classes:
+                    if M.lookup_method(C, fn.name) is not fn:
+                        continue
+                    construct = '%s@%s' % (fn.qualname, C.name)
+                    ctx.instance('C08.g', construct)
+                    ks = []
+                    for a in c.args[3:5]:
+                        ks.append(unpack.get(a.id) if isinstance(a, ast.Name) and a.id in unpack else kind(a, C))
+                    if len(ks) == 1:
+                        ks.append(ks[0] if ks[0] is None or not ks[0].startswith('shape') else 'shape0')      # Kt defaults to Kr
+                    if None in ks:
+                        ctx.error('C08.g: block counts `%s` of the expansion in %s are not recognised (cannot tell)'
+                                  % ([norm(a) for a in c.args[3:5]], fn.qualname))
+                    square = k_is_total(C) is True          # no external sources: users == transmitters
+                    ok_r = ks[0] in ('shape0',) or ks[0] == 'users' or (square and ks[0] == 'total')
+                    ok_t = ks[1] in ('shape1', 'total') or (square and ks[1] in ('users', 'shape0'))
+                    ok = ok_r and ok_t
+                    ctx.obligation('C08.g', construct, ok, {'receiver_blocks': ks[0], 'transmitter_blocks': ks[1], 'class_has_external_sources': not square})
+                    if not ok:
+                        ctx.violation('C08.g', fn.qualname, 'executed by %s the expansion `%s` covers %s x %s blocks, not receivers x all transmitters: the '
+                                      'path loss of the external interference links is left at 1 in the big matrix while the per-link view applies it'
+                                      % (C.name, norm(c)[:60], ks[0], ks[1]), fn.path, c.lineno, operand='blocks:' + C.name)
 
 
 def _check_corrupt(ctx: Ctx) -> None:
@@ -271,6 +352,8 @@ def synthetic():
 
 
 MUTANTS = [
+    Mutant('store-K-before-validation', PATH, 'MultiUserChannelMatrix.init_from_channel_matrix',
+           [('regex', r'(    del Nt, Nr\n)', r'\1    self._K = K\n')], r'C08\.e:MultiUserChannelMatrix\.init_from_channel_matrix'),
     Mutant('drop-bigH-reset-in-set_pathloss', PATH, 'MultiUserChannelMatrix.set_pathloss',
            [('delete', r'self\._big_H_with_pathloss = None')],
            r'C08\.a:MultiUserChannelMatrix\.set_pathloss:_big_H_with_pathloss'),
